@@ -50,11 +50,13 @@ def norm_effect(mn, f):
     return effect(mn, f)
 
 
-def check_rules(rep, facts, rel, rule_sem, rule_acc, tier):
+def check_rules(rep, facts, rel, rule_sem, rule_acc, tier, only_names=None):
     sums = all_summaries(facts)
     item = rel.pa.item
     total = 0
     for ru in rel.rules:
+        if only_names is not None and ru.name not in only_names:
+            continue
         con = rel.constructions.get(ru.key)
         if con is None:
             rep.fail(Finding(rule_sem, 'transform_compressible', 'rule ' + ru.key, 'criteria rule {!r} has no construction arm'.format(ru.key),
@@ -192,8 +194,10 @@ def check_rounds(rep, facts, rule):
                   lambda ci=ci: Finding(rule, 'assemble', 'pipeline', 'a compression round runs before register aliases of the items it sees are resolved', line=fn.lineno))
     for i, (n, g) in enumerate(order):
         if n == 'transform_compressible':
-            rep.check(g == 'compress', rule, 'compression only when requested',
-                      lambda: Finding(rule, 'assemble', 'pipeline', 'transform_compressible is not guarded by the compress option', line=fn.lineno), nontrivial=False)
+            rep.check(g == 'compress', rule, 'a compression round runs exactly when compression is requested',
+                      lambda g=g: Finding(rule, 'assemble', 'pipeline', 'transform_compressible runs under the guard `{}` instead of exactly when the compress option is set: '
+                                          '{}'.format(g, 'with -c some runs skip the round and eligible instructions stay 32 bits wide' if g.startswith('compress') else
+                                                      'programs are compressed although compression was not requested'), line=fn.lineno), nontrivial=False)
 
 
 def run(repo, tier):
